@@ -1,5 +1,6 @@
 import FpVerif.Properties.C19
 import FpVerif.Properties.C19_More
+import FpVerif.Properties.C19_Raw
 #print axioms Fp.C19.read_bounded
 #print axioms Fp.C19.parse_error_is_h2_error
 #print axioms Fp.C19.fixed_length_frames
@@ -30,3 +31,7 @@ import FpVerif.Properties.C19_More
 #print axioms Fp.C19.headers_padded_roundtrip
 #print axioms Fp.C19.headers_padded_priority_roundtrip
 #print axioms Fp.C19.push_promise_padded_roundtrip
+#print axioms Fp.C19.parsePayload_unknown
+#print axioms Fp.C19.raw_unknown_roundtrip
+#print axioms Fp.C19.raw_unknown_in_header_block
+#print axioms Fp.C19.in_header_block_only_continuation
